@@ -31,6 +31,7 @@ import SqiProofs.Basis
 import SqiProofs.BasisAlg
 import SqiModel.BasisConcrete
 import SqiGen.Ec
+import SqiProofs.BasisGen
 import Mathlib.Data.ZMod.Basic
 import Mathlib.Tactic.NormNum
 
@@ -238,6 +239,96 @@ theorem old_guard_negative_oob (S : Search Fp) (h1 : Int) :
     fromHint { S with guardP := fun h => decide (h < (NTAB : Int)) } (-1) h1 = .oob := by
   unfold fromHint naFromHint readTab
   simp [NTAB]
+
+/-! ## (ii') the theorems are about the C text: generated control skeleton = hand model (tie T, tools/translate/basissearch.py)
+
+`SqiGen.BasisSearch` is regenerated on every run from basis.c: loop structure (`for(;;)`, `break`), the `hint < 20` table branch, the fallback
+initialisation at `hint == 20`, the `+1` updates of x / z1 / z2, the acceptance tests as calls of the abstract oracles, `hint += 1`, and the
+guards of the from_hint routines. `SqiProofs.BasisGen` proves it equal to the hand model, so the statements below hold for the generated code. -/
+section Generated
+open SqiProofs.BasisGen
+
+theorem guard20_ok : GuardOK guard20 := by
+  intro h
+  simp only [guard20, Bool.and_eq_true, decide_eq_true_eq, NTAB]
+  omega
+
+/-- generated searches = hand model; generated from_hint = hand model with the guard `0 ≤ hint < 20` -/
+theorem generated_eq_model (S : Search Fp) (fuel : Nat) (h0 h1 : Int) :
+    toHintGen S fuel = toHint S fuel ∧ fromHintGen S h0 h1 = fromHint { S with guardP := guard20, guardQ := guard20 } h0 h1 :=
+  ⟨toHintGen_eq S fuel, fromHintGen_eq { S with guardP := guard20, guardQ := guard20 } rfl rfl h0 h1⟩
+
+/-- `from_to_hint` for the code generated from the current basis.c -/
+theorem generated_from_to_hint (S : Search Fp) (hA : Add1Small S.E) (fuel : Nat) (r : Hinted Fp)
+    (h : toHintGen S fuel = .ok r) : fromHintGen S (r.hintP : Int) (r.hintQ : Int) = .ok (r.xP, r.xQ) := by
+  rw [toHintGen_eq] at h
+  rw [(generated_eq_model S fuel _ _).2]
+  exact from_to_hint { S with guardP := guard20, guardQ := guard20 } hA guard20_ok guard20_ok fuel r h
+
+/-- `to_hint_minimal` for the generated searches -/
+theorem generated_to_hint_minimal (S : Search Fp) (hA : Add1Small S.E) (fuel : Nat) (r : Hinted Fp) (h : toHintGen S fuel = .ok r) :
+    naGood S.E S.ocP S.tab r.hintP = true ∧ (∀ k, k < r.hintP → naGood S.E S.ocP S.tab k = false) ∧
+    abGood S.E S.ocQ S.mulAlpha S.ztab r.hintQ = true ∧ (∀ k, k < r.hintQ → abGood S.E S.ocQ S.mulAlpha S.ztab k = false) := by
+  rw [toHintGen_eq] at h
+  exact to_hint_minimal S hA fuel r h
+
+/-- `from_hint_index_safe` for the generated from_hint routines: EVERY pair of C `int` hints, tables of 20 entries -/
+theorem generated_from_hint_index_safe (S : Search Fp) (ht : S.tab.length = NTAB) (hz : S.ztab.length = NTAB) (h0 h1 : Int) :
+    fromHintGen S h0 h1 ≠ .oob := by
+  rw [(generated_eq_model S 0 h0 h1).2]
+  exact from_hint_index_safe { S with guardP := guard20, guardQ := guard20 } ht hz guard20_ok guard20_ok h0 h1
+
+/-- the generated searches never read outside tables of 20 entries -/
+theorem generated_to_hint_index_safe (S : Search Fp) (ht : S.tab.length = NTAB) (hz : S.ztab.length = NTAB) (fuel : Nat) :
+    toHintGen S fuel ≠ .oob := by
+  rw [toHintGen_eq]; exact to_hint_index_safe S ht hz fuel
+
+/-- the wrappers call the routines in the modelled order -/
+theorem generated_wrappers : SqiGen.BasisSearch.wrapperCalls = ["ec_curve_to_point_2f_not_above_montgomery", "ec_curve_to_point_2f_above_montgomery",
+    "ec_curve_to_point_2f_not_above_montgomery_from_hint", "ec_curve_to_point_2f_above_montgomery_from_hint"] := wrappers_ok
+end Generated
+
+/-! The individual step equalities "generated routine = model routine" (proved in `SqiProofs/BasisGen.lean`), restated here under
+the same names so that a change of the C control flow is reported as the failed obligation it breaks. -/
+section GeneratedSteps
+open SqiGen.BasisSearch
+variable {Fp : Type}
+
+theorem na_inner1 (E : Env Fp) (oc : Nat → Fp × Fp → Bool) (tab : List (Fp × Fp)) (n : Nat) (s : St Fp) :
+    notAbove_loop1 E oc tab n s = SqiProofs.BasisGen.rmap (fun r => { s with hint := r.1, x := r.2 }) (naInner E n s.hint s.x) :=
+  SqiProofs.BasisGen.na_inner1 E oc tab n s
+
+theorem na_inner2 (E : Env Fp) (oc : Nat → Fp × Fp → Bool) (tab : List (Fp × Fp)) (n : Nat) (s : St Fp) :
+    notAbove_loop2 E oc tab n s = SqiProofs.BasisGen.rmap (fun r => { s with hint := r.1, x := r.2 }) (naInner E n s.hint s.x) :=
+  SqiProofs.BasisGen.na_inner2 E oc tab n s
+
+theorem na_outer (E : Env Fp) (oc : Nat → Fp × Fp → Bool) (tab : List (Fp × Fp)) (n : Nat) (s : St Fp) :
+    notAbove_loop0 E oc tab n s = SqiProofs.BasisGen.rmap (fun r => { s with hint := r.1, x := r.2 }) (naOuter E oc tab n s.hint s.x) :=
+  SqiProofs.BasisGen.na_outer E oc tab n s
+
+theorem ab_inner1 (E : Env Fp) (oc : Nat → Fp × Fp → Bool) (mulAlpha : Fp × Fp → Fp × Fp) (tab : List (Fp × Fp)) (n : Nat) (s : St Fp) :
+    above_loop1 E oc mulAlpha tab n s =
+      SqiProofs.BasisGen.rmap (fun r => { s with hint := r.1, z1 := r.2.1, z2 := r.2.2 }) (abInner E n s.hint s.z1 s.z2) :=
+  SqiProofs.BasisGen.ab_inner1 E oc mulAlpha tab n s
+
+theorem ab_inner2 (E : Env Fp) (oc : Nat → Fp × Fp → Bool) (mulAlpha : Fp × Fp → Fp × Fp) (tab : List (Fp × Fp)) (n : Nat) (s : St Fp) :
+    above_loop2 E oc mulAlpha tab n s =
+      SqiProofs.BasisGen.rmap (fun r => { s with hint := r.1, z1 := r.2.1, z2 := r.2.2 }) (abInner E n s.hint s.z1 s.z2) :=
+  SqiProofs.BasisGen.ab_inner2 E oc mulAlpha tab n s
+
+theorem ab_outer (E : Env Fp) (oc : Nat → Fp × Fp → Bool) (mulAlpha : Fp × Fp → Fp × Fp) (tab : List (Fp × Fp)) (n : Nat) (s : St Fp) :
+    SqiProofs.BasisGen.rmap (fun s' : St Fp => (s'.hint, s'.x)) (above_loop0 E oc mulAlpha tab n s) =
+      abOuter E oc mulAlpha tab n s.hint s.z1 s.z2 :=
+  SqiProofs.BasisGen.ab_outer E oc mulAlpha tab n s
+
+theorem na_from_hint (E : Env Fp) (tab : List (Fp × Fp)) (hint : Int) :
+    notAboveFromHint E tab hint = naFromHint E SqiProofs.BasisGen.guard20 tab hint :=
+  SqiProofs.BasisGen.na_from_hint E tab hint
+
+theorem ab_from_hint (E : Env Fp) (mulAlpha : Fp × Fp → Fp × Fp) (tab : List (Fp × Fp)) (hint : Int) :
+    aboveFromHint E mulAlpha tab hint = abFromHint E SqiProofs.BasisGen.guard20 mulAlpha tab hint :=
+  SqiProofs.BasisGen.ab_from_hint E mulAlpha tab hint
+end GeneratedSteps
 
 /-! ## (iii) order / independence from named 2-descent hypotheses (PARTIAL) -/
 section Torsion
